@@ -179,10 +179,11 @@ class Catalogue(object):
         _, v = self.value(plan['kind'], ver, label)
         pos = plan['pos']
         g = hs.Grid(version=ver)
-        cols = [('first', []), ('mid', []), ('last', [])]
+        # (a column tag may be called ver and a grid tag name: only the grid's ver and a column's name are special)
+        cols = [('first', []), ('mid', []), ('last', [('ver', 'cv')])]
         if pos == 'cmeta':
-            cols = [('first', [('before', 'x'), ('tag', v), ('after', hs.MARKER)]), ('mid', []), ('last', [])]
-        g = hs.Grid(version=ver, metadata={'dis': 'grid', 'tag': v, 'z': hs.MARKER} if pos == 'gmeta' else {'dis': 'grid'},
+            cols = [('first', [('before', 'x'), ('tag', v), ('after', hs.MARKER)]), ('mid', []), ('last', [('ver', 'cv')])]
+        g = hs.Grid(version=ver, metadata={'dis': 'grid', 'tag': v, 'z': hs.MARKER} if pos == 'gmeta' else {'dis': 'grid', 'name': 'gn'},
                     columns=cols)
         filler = lambda: {'first': 'L', 'mid': 1, 'last': 'R'}
         row = filler()
